@@ -91,6 +91,17 @@ func (fi *FuncInfo) guardsUpTo(n ast.Node, top ast.Node) []Cond {
 					out[i].Neg = false
 				}
 			}
+			// emptiness has one spelling: len(x) == 0 / len(x) > 0
+			if be, ok := ast.Unparen(out[i].Expr).(*ast.BinaryExpr); ok && !out[i].Neg && fi.isBuiltin(be.X, "len") != nil {
+				if lit, ok := be.Y.(*ast.BasicLit); ok && lit.Kind == token.INT {
+					switch {
+					case lit.Value == "0" && be.Op == token.LEQ, lit.Value == "1" && be.Op == token.LSS:
+						out[i].Expr = &ast.BinaryExpr{X: be.X, OpPos: be.OpPos, Op: token.EQL, Y: &ast.BasicLit{ValuePos: lit.ValuePos, Kind: token.INT, Value: "0"}}
+					case lit.Value == "0" && be.Op == token.NEQ, lit.Value == "1" && be.Op == token.GEQ:
+						out[i].Expr = &ast.BinaryExpr{X: be.X, OpPos: be.OpPos, Op: token.GTR, Y: &ast.BasicLit{ValuePos: lit.ValuePos, Kind: token.INT, Value: "0"}}
+					}
+				}
+			}
 		}
 	}
 	return fi.withHelperSuccess(out)
